@@ -24,9 +24,23 @@ class Unsupported(Exception):
     pass
 
 
+class _SpecSum(sp.Expr):
+    """Plain data carrier with the argument layout of PoolSum, used by the generators so that the case
+    DESCRIPTION (JSON tree) never passes through ampform's constructor.  It carries the class name
+    'PoolSum' so that SymPy orders Add/Mul arguments exactly as it does for the real class."""
+
+    def __new__(cls, expression, *indices):
+        args = sp.sympify((expression, *[(s, tuple(v)) for s, v in indices]))
+        return sp.Expr.__new__(cls, *args)
+
+
+_SpecSum.__name__ = "PoolSum"
+SpecSum = _SpecSum
+
+
 # ---------------------------------------------------------------- SymPy -> JSON (fail closed)
 def ser(e) -> list:
-    if isinstance(e, PoolSum):
+    if isinstance(e, (PoolSum, SpecSum)):
         idx = []
         for t in e.args[1:]:
             if not (isinstance(t, sp.Tuple) and len(t) == 2 and isinstance(t[0], sp.Symbol)
@@ -77,6 +91,24 @@ SUPPLIERS = {
     "dict_keys": lambda vals: dict.fromkeys(vals).keys() if len(set(vals)) == len(vals) else list(vals),
     "range": _range_or_tuple,
 }
+
+
+def spec_build(t):
+    """JSON -> SymPy with SpecSum nodes (no ampform constructor involved)"""
+    k = t[0]
+    if k == "PS":
+        return SpecSum(spec_build(t[1]), *[(sp.Symbol(n), tuple(spec_build(v) for v in vals)) for n, vals in t[2]])
+    if k in ("S", "N"):
+        return build(t)
+    if k == "A":
+        return sp.Add(*[spec_build(a) for a in t[1]])
+    if k == "M":
+        return sp.Mul(*[spec_build(a) for a in t[1]])
+    if k == "P":
+        return sp.Pow(spec_build(t[1]), spec_build(t[2]))
+    if k == "F":
+        return sp.Function(t[1])(*[spec_build(a) for a in t[2]])
+    raise ValueError(t)
 
 
 def build(t, supplier=None, problems=None):
@@ -163,7 +195,7 @@ def gal(t) -> str:
 
 def ps_depth(e) -> int:
     d = max([ps_depth(a) for a in e.args], default=0)
-    return d + 1 if isinstance(e, PoolSum) else d
+    return d + 1 if isinstance(e, (PoolSum, SpecSum)) else d
 
 
 def has_poolsum(e) -> bool:
@@ -238,7 +270,7 @@ def gen_poolsum(rng, scope, free, depth, nest, budget, n_idx=None, quirks=False)
     used = [n for n in names if rng.random() < 0.85]
     inner_scope = list(dict.fromkeys(scope + used))
     body = gen_summand(rng, inner_scope, free, depth, nest, budget)
-    return PoolSum(body, *indices)
+    return SpecSum(body, *indices)
 
 
 def gen_builder_nest(rng, budget=48):
@@ -271,9 +303,9 @@ def gen_builder_nest(rng, budget=48):
                 p = p[:-1]
             b2 = max(1, b2 // len(p))
             pin.append(p)
-        terms.append(PoolSum(body, *[(sp.Symbol(n), p) for n, p in zip(inner, pin)]))
+        terms.append(SpecSum(body, *[(sp.Symbol(n), p) for n, p in zip(inner, pin)]))
     amp = sp.Add(*terms)
-    return PoolSum(sp.Function("h")(amp) ** 2, *[(sp.Symbol(n), p) for n, p in zip(outer, pools_out)])
+    return SpecSum(sp.Function("h")(amp) ** 2, *[(sp.Symbol(n), p) for n, p in zip(outer, pools_out)])
 
 
 def gen_shadow_nest(rng, level=2, budget=None):
@@ -292,7 +324,7 @@ def gen_shadow_nest(rng, level=2, budget=None):
     # summand: every index name may occur, whether or not it is bound here
     own = gen_summand(rng, IDX, FREE, rng.randint(1, 2), 0, budget)
     if level <= 0:
-        return PoolSum(own, *indices)
+        return SpecSum(own, *indices)
     parts = [own, gen_shadow_nest(rng, level - 1, budget)]
     if rng.random() < 0.4:
         parts.append(gen_shadow_nest(rng, max(level - 1 - rng.randint(0, 1), 0), budget))  # sibling
@@ -303,4 +335,36 @@ def gen_shadow_nest(rng, level=2, budget=None):
         body = sp.Add(*parts)
     else:
         body = sp.Function("f")(*parts)
-    return PoolSum(body, *indices)
+    return SpecSum(body, *indices)
+
+
+def gen_cancel(rng):
+    """cleanup inputs: a singleton pool whose value makes SymPy simplify away every occurrence of ANOTHER,
+    multi-valued index that does occur in the summand (i*j with i=0, j**i with i=0, (i-1)*j with i=1, ...)"""
+    names = rng.sample(IDX, rng.choice([2, 2, 3]))
+    s_name, multi = names[0], names[1:]
+    s_sym = sp.Symbol(s_name)
+    c = rng.choice([sp.Integer(0), sp.Integer(0), sp.Integer(1), sp.Integer(2), sp.Rational(1, 2)])
+    t_inner = gen_summand(rng, multi, FREE, 1, 0, [8])
+    victim = sp.Symbol(multi[0])
+    t_inner = rng.choice([victim, victim * t_inner, victim + t_inner, sp.Function("g")(victim, t_inner)])
+    how = rng.random()
+    if how < 0.45:
+        term = (s_sym - c) * t_inner                      # factor vanishing at the singleton value
+    elif how < 0.75:
+        term = sp.Pow(t_inner, s_sym - c)                # exponent vanishing: t**0 = 1
+    elif how < 0.9:
+        term = sp.Function("f")(sp.Symbol(rng.choice(FREE))) * (s_sym - c) * t_inner * sp.Symbol(rng.choice(FREE))
+    else:
+        term = (s_sym - c) ** 2 * t_inner + (s_sym - c) * victim
+    others = [m for m in multi[1:] if rng.random() < 0.7]
+    rest = gen_summand(rng, others + ([s_name] if rng.random() < 0.5 else []), FREE, 1, 0, [8])
+    body = term + rest
+    indices = [(s_sym, (c,))]
+    for m in multi:
+        pool = gen_pool(rng, FREE, symbolic_ok=False)
+        if len(pool) < 2:
+            pool = pool + (rnd_rational(rng),)
+        indices.append((sp.Symbol(m), pool))
+    rng.shuffle(indices)
+    return SpecSum(body, *indices)
